@@ -235,6 +235,13 @@ func c20ResolutionSet(c *vlib.Ctx, idx int64) {
 					continue // coinciding candidates
 				}
 				parts := []tplPart{{Lit: fmt.Sprintf("payload[%s/%s/%s]", pcomp, cd.rt, cd.role)}}
+				if r.Intn(6) == 0 {
+					// an entry whose content is empty is an existing entry all the same
+					c.Count("entries_with_empty_content", 1)
+					tpls[k] = nil
+					putEntry(cm, cd.rt, cd.role, entry, "")
+					continue
+				}
 				for _, vn := range varNames {
 					if r.Intn(3) > 0 {
 						parts = append(parts, tplPart{Lit: " " + vn + "="}, tplPart{Var: vn})
